@@ -225,6 +225,27 @@ class Interp(object):
                     out = out + SBytes.of(bytes(s))
                 out = out + SBytes.of(item.data if type(item).__name__ == 'SByteArray' else item)
             return out
+        if isinstance(s, dict) and nm == 'get' and args and is_symbolic(args[0]):
+            # d.get(symbolic key[, default]): the stored value of the key it equals, else the default
+            try:
+                return self.sym_dict_lookup(s, args[0])
+            except PyRaise as e:
+                if isinstance(e.exc, KeyError):
+                    return args[1] if len(args) > 1 else kwargs.get('default')
+                raise
+        import functools as _functools
+        if f is _functools.reduce and args and not kwargs:
+            # functools.reduce(fn, iterable[, initial]) by its definition (a left fold); fn may be repository code
+            items = list(self.iterate(args[1]))
+            if len(args) > 2:
+                acc = args[2]
+            elif items:
+                acc, items = items[0], items[1:]
+            else:
+                raise PyRaise(TypeError('reduce() of empty iterable with no initial value'))
+            for x in items:
+                acc = self.call_value(args[0], [acc, x], {})
+            return acc
         import struct as _struct
         if isinstance(s, _struct.Struct) and nm in ('pack', 'unpack') and sym_args:
             from . import builtins_model as bm
